@@ -20,6 +20,8 @@ pub struct Unit {
     pub cases: std::ops::Range<i64>,
     /// preemption bound
     pub bound: usize,
+    /// (j, k): explore only the subtrees of the root execution's children whose index is j mod k
+    pub slice: (usize, usize),
 }
 
 impl Unit {
@@ -29,7 +31,12 @@ impl Unit {
             params,
             cases: 0..1,
             bound,
+            slice: (0, 1),
         }
+    }
+    pub fn slice(mut self, j: usize, k: usize) -> Unit {
+        self.slice = (j, k);
+        self
     }
     pub fn cases(mut self, r: std::ops::Range<i64>) -> Unit {
         self.cases = r;
@@ -284,6 +291,12 @@ pub fn run_unit(u: &Unit, core: usize, ctx: &RunCtx) {
                 st.capped = true;
                 break 'cases;
             }
+            let counted = !(prefix.is_empty() && u.slice.0 != 0);
+            if !counted {
+                // another slice accounts for the root execution; here it only yields the children
+                push_children(&mut stack, &dec, &prefix, u);
+                continue;
+            }
             st.executions += 1;
             st.steps += r["st"].as_u64().unwrap_or(0);
             st.decisions_max = st.decisions_max.max(dec.len());
@@ -365,24 +378,7 @@ pub fn run_unit(u: &Unit, core: usize, ctx: &RunCtx) {
                     }
                 }
             }
-            // Children: deviate at every decision after the prefix. An execution stopped by a
-            // violation only offers the decisions it reached; everything beyond shares the
-            // violating prefix.
-            let pre: usize = dec[..prefix.len()]
-                .iter()
-                .filter(|d| d.preemptible && d.choice != 0)
-                .count();
-            for i in (prefix.len()..dec.len()).rev() {
-                let d = dec[i];
-                if pre + d.preemptible as usize > u.bound {
-                    continue;
-                }
-                for alt in (1..d.n).rev() {
-                    let mut p: Vec<u8> = dec[..i].iter().map(|d| d.choice).collect();
-                    p.push(alt);
-                    stack.push(p);
-                }
-            }
+            push_children(&mut stack, &dec, &prefix, u);
         }
     }
     drop(w);
@@ -407,6 +403,34 @@ pub fn run_unit(u: &Unit, core: usize, ctx: &RunCtx) {
     if e.samples.len() < 3 {
         e.samples.extend(st.samples);
     }
+}
+
+/// Children of an execution: deviate at every decision after the prefix. An execution stopped by a
+/// violation only offers the decisions it reached; everything beyond shares the violating prefix.
+fn push_children(stack: &mut Vec<Vec<u8>>, dec: &[crate::sched::Dec], prefix: &[u8], u: &Unit) {
+    let pre: usize = dec[..prefix.len()]
+        .iter()
+        .filter(|d| d.preemptible && d.choice != 0)
+        .count();
+    let mut idx = 0usize;
+    let mut children = vec![];
+    for i in prefix.len()..dec.len() {
+        let d = dec[i];
+        if pre + d.preemptible as usize > u.bound {
+            continue;
+        }
+        for alt in 1..d.n {
+            idx += 1;
+            if prefix.is_empty() && u.slice.1 > 1 && idx % u.slice.1 != u.slice.0 {
+                continue;
+            }
+            let mut p: Vec<u8> = dec[..i].iter().map(|d| d.choice).collect();
+            p.push(alt);
+            children.push(p);
+        }
+    }
+    // depth-first, leftmost deviation first
+    stack.extend(children.into_iter().rev());
 }
 
 /// Re-executes a violating schedule twice in fresh processes: same verdict, same trace.
